@@ -326,7 +326,12 @@ impl Drawable<'_> {
     }
 
     pub(crate) fn clear(mut self) -> io::Result<()> {
-        let state = self.state();
+        let mut state = self.state();
+        // Clearing must not re-pad the region with blank lines (bottom alignment): it has to
+        // leave the cursor at the top of the cleared region, since whatever is written next
+        // (e.g. by the closure passed to `suspend`) belongs there. The alignment is set again
+        // by the next regular draw.
+        state.alignment = MultiProgressAlignment::Top;
         drop(state);
         self.draw()
     }
